@@ -423,12 +423,22 @@ static URL_MAX_LEN: usize = 128;
     PartialEq,
     PartialOrd,
     serde::Serialize,
-    serde::Deserialize,
     JsonSchema,
 )]
 pub struct URL(String);
 
 impl_to_from!(URL);
+
+// the JSON reader enforces the bound the constructor enforces (a derived reader would skip it)
+impl<'de> serde::de::Deserialize<'de> for URL {
+    fn deserialize<D>(deserializer: D) -> Result<Self, D::Error>
+    where
+        D: serde::de::Deserializer<'de>,
+    {
+        let s = <String as serde::de::Deserialize>::deserialize(deserializer)?;
+        Self::new_impl(s).map_err(|e| serde::de::Error::custom(e.to_string()))
+    }
+}
 
 #[wasm_bindgen]
 impl URL {
@@ -468,12 +478,22 @@ static DNS_NAME_MAX_LEN: usize = 128;
     PartialEq,
     PartialOrd,
     serde::Serialize,
-    serde::Deserialize,
     JsonSchema,
 )]
 pub struct DNSRecordAorAAAA(String);
 
 impl_to_from!(DNSRecordAorAAAA);
+
+// the JSON reader enforces the bound the constructor enforces (a derived reader would skip it)
+impl<'de> serde::de::Deserialize<'de> for DNSRecordAorAAAA {
+    fn deserialize<D>(deserializer: D) -> Result<Self, D::Error>
+    where
+        D: serde::de::Deserializer<'de>,
+    {
+        let s = <String as serde::de::Deserialize>::deserialize(deserializer)?;
+        Self::new_impl(s).map_err(|e| serde::de::Error::custom(e.to_string()))
+    }
+}
 
 #[wasm_bindgen]
 impl DNSRecordAorAAAA {
@@ -511,12 +531,22 @@ impl DNSRecordAorAAAA {
     PartialEq,
     PartialOrd,
     serde::Serialize,
-    serde::Deserialize,
     JsonSchema,
 )]
 pub struct DNSRecordSRV(String);
 
 impl_to_from!(DNSRecordSRV);
+
+// the JSON reader enforces the bound the constructor enforces (a derived reader would skip it)
+impl<'de> serde::de::Deserialize<'de> for DNSRecordSRV {
+    fn deserialize<D>(deserializer: D) -> Result<Self, D::Error>
+    where
+        D: serde::de::Deserializer<'de>,
+    {
+        let s = <String as serde::de::Deserialize>::deserialize(deserializer)?;
+        Self::new_impl(s).map_err(|e| serde::de::Error::custom(e.to_string()))
+    }
+}
 
 #[wasm_bindgen]
 impl DNSRecordSRV {
